@@ -199,6 +199,9 @@ def make_circuit(ctx, r, variant):
         nx.relabel_nodes(c.graph, {n: "\\" + n + "[1]" for n in list(c.graph.nodes) if n.startswith("n") and r.random() < 0.4}, copy=False)
     if variant % 2 == 0:
         gen.add_flops(r, c, r.randint(1, 2))
+    if variant % 8 == 5:
+        for n in sorted(c.inputs()):                 # no primary inputs at all: constants drive everything
+            c.graph.nodes[n]["type"] = r.choice(["0", "1"])
     c.name = ["rc", "c17-opt", "alu.v2", "top"][variant % 4]      # names that are not plain identifiers too
     if variant % 3 == 0:
         # circuits wrapped around a raw graph (or read by the fast parser) lack the optional `output` attribute
